@@ -32,6 +32,17 @@ except:
     pass
 
 
+def _sort_key(item):
+    # repr() alone does not tell classes apart: every Array(...) specialisation
+    # and every customised variant of a class has the repr of its origin, and
+    # sorted() would then keep the (hash, i.e. address dependent) iteration
+    # order of the set. Break ties with the names the item is published under.
+    attrs = getattr(item, 'Attributes', None)
+    return (repr(item), str(getattr(item, '__namespace__', '')),
+            str(getattr(item, '__type_name__', '')),
+            str(getattr(attrs, 'sub_name', '')))
+
+
 def toposort2(data):
     if len(data) == 0:
         return
@@ -47,7 +58,7 @@ def toposort2(data):
         ordered = set(item for item,dep in data.items() if len(dep) == 0)
         if len(ordered) == 0:
             break
-        yield sorted(ordered, key=lambda x:repr(x))
+        yield sorted(ordered, key=_sort_key)
         data = dict([(item, (dep - ordered)) for item,dep in data.items()
                                                         if item not in ordered])
 
